@@ -1,6 +1,6 @@
 From RsdnsModel Require Import Base Cursor Names Labels Header Tracker RData Reader.
 From RsdnsModel.Spec Require Import LinearPass.
-From RsdnsModel.Proofs Require Import Latch TrackerRefine.
+From RsdnsModel.Proofs Require Import Latch TrackerRefine SpecExec ParseSpec ReaderRefine.
 From RsdnsModel.Properties Require Import C09.
 Open Scope N_scope.
 Check (C09_stays_exhausted_partial : forall msg r, r_done r = true ->
@@ -48,4 +48,39 @@ Check (C09_tracker_example : allowed 1 2 0 1 [TQuestion; TRecord; TRecord; TSeek
   allowed 1 2 0 1 [TQuestion; TSeek 1] 0 0 = None /\
   exists tr, run_t 1 2 0 1 (fun k => 12 + 20 * k) [TQuestion; TRecord; TRecord; TSeek 0; TRecord; TSeek 1; TRecord]
                    (tr_set tr_default (mkHeader 7 0 1 2 0 1)) 0 0 = Some (tr, 4, 4)).
-Print Assumptions C09_stays_exhausted_partial. Print Assumptions C09_error_latches_partial. Print Assumptions C09_tracker_refines. Print Assumptions C09_tracker_init. Print Assumptions C09_counts. Print Assumptions C09_seek. Print Assumptions C09_record_section. Print Assumptions C09_tracker_example.
+Check (C09_question_parse_is_spec : forall msg c, whole msg c ->
+  match question_at msg (pos c) with
+  | Some it => m_question_ref msg c = (c_set_pos c (a_end it), Ok (OQuestionRef c (a_type it) (a_class it))) /\
+               a_start it = pos c
+  | None => exists c' e, m_question_ref msg c = (c', Err e)
+  end).
+Check (C09_record_parse_is_spec : forall msg c p s, whole msg c ->
+  match record_at msg (pos c) with
+  | Some it =>
+    (do* _ <- lift_c (skip_name msg); m_raw_marker msg p s) c =
+    (c_set_pos c (a_type_off it + 10), Ok (mkMarker p (a_type_off it) (a_type it) (a_class it) (a_ttl it) (a_rdlen it) s)) /\
+    a_start it = pos c /\ a_end it = a_type_off it + 10 + a_rdlen it /\
+    a_data_ok it = (a_type_off it + 10 + a_rdlen it <=? lenN msg)
+  | None => exists c' e, (do* _ <- lift_c (skip_name msg); m_raw_marker msg p s) c = (c', Err e)
+  end).
+Check (C09_reader_refines : forall msg, lenN msg <= 65535 -> 12 <= lenN msg ->
+  forall nq an ns ar qs rs e1 e2,
+  chain msg question_at (fun _ => True) 12 qs e1 ->
+  chain msg record_at (fun it => a_data_ok it = true) e1 rs e2 ->
+  lenN qs = nq -> lenN rs = an + ns + ar -> nq <= 65535 -> an <= 65535 -> ns <= 65535 -> ar <= 65535 ->
+  forall ops r idx hw idx' hw',
+  RState msg nq an ns ar qs rs e2 r idx hw -> allowed nq an ns ar ops idx hw = Some (idx', hw') ->
+  exists r', RState msg nq an ns ar qs rs e2 r' idx' hw' /\ prescribed msg nq an ns ar qs rs r' ops r idx hw).
+Check (C09_reader_start : forall msg, lenN msg <= 65535 -> 12 <= lenN msg ->
+  forall nq an ns ar qs rs e1 e2,
+  chain msg question_at (fun _ => True) 12 qs e1 ->
+  chain msg record_at (fun it => a_data_ok it = true) e1 rs e2 ->
+  lenN qs = nq -> lenN rs = an + ns + ar -> nq <= 65535 -> an <= 65535 -> ns <= 65535 -> ar <= 65535 ->
+  forall h c, h_qd h = nq -> h_an h = an -> h_ns h = ns -> h_ar h = ar -> whole msg c -> pos c = 12 ->
+  RState msg nq an ns ar qs rs e2 (mkReader c (tr_set tr_default h) false) 0 0).
+Check (C09_linear_pass_gives_chains : forall msg l, linear_of msg = Some l ->
+  lenN (l_qs l) = l_nq l -> lenN (l_rs l) = nrec l -> Forall (fun it => a_data_ok it = true) (l_rs l) ->
+  lenN msg <= 65535 /\ 12 <= lenN msg /\ l_nq l <= 65535 /\ l_an l <= 65535 /\ l_ns l <= 65535 /\ l_ar l <= 65535 /\
+  exists e1 e2, chain msg question_at (fun _ => True) 12 (l_qs l) e1 /\
+                chain msg record_at (fun it => a_data_ok it = true) e1 (l_rs l) e2).
+Print Assumptions C09_stays_exhausted_partial. Print Assumptions C09_error_latches_partial. Print Assumptions C09_tracker_refines. Print Assumptions C09_tracker_init. Print Assumptions C09_counts. Print Assumptions C09_seek. Print Assumptions C09_record_section. Print Assumptions C09_tracker_example. Print Assumptions C09_question_parse_is_spec. Print Assumptions C09_record_parse_is_spec. Print Assumptions C09_reader_refines. Print Assumptions C09_reader_start. Print Assumptions C09_linear_pass_gives_chains.
